@@ -36,6 +36,7 @@ type WOp struct {
 	N      int   // payload size / grow size
 	Chunks []int // ReadFrom: sizes the source hands out per Read
 	SrcErr bool  // ReadFrom: source ends with an error instead of EOF
+	SrcEnd bool  // ReadFrom: the source returns its last bytes together with the end condition (n>0, err)
 }
 
 func (o WOp) String() string {
@@ -44,7 +45,7 @@ func (o WOp) String() string {
 	case WOpWrite, WOpThrough, WOpGrow:
 		s += fmt.Sprintf("(%d)", o.N)
 	case WOpReadFrom, WOpCopy:
-		s += fmt.Sprintf("(%d in %d reads, srcErr=%v)", o.N, len(o.Chunks), o.SrcErr)
+		s += fmt.Sprintf("(%d in %d reads, srcErr=%v, endWithData=%v)", o.N, len(o.Chunks), o.SrcErr, o.SrcEnd)
 	}
 	return s
 }
@@ -145,6 +146,7 @@ type chunkSrc struct {
 	i        int
 	pos      int
 	fail     bool
+	withData bool
 	produced int
 }
 
@@ -166,6 +168,12 @@ func (c *chunkSrc) Read(p []byte) (int, error) {
 	copy(p, c.data[c.pos:c.pos+n])
 	c.pos += n
 	c.produced += n
+	if c.withData && c.pos >= len(c.data) {
+		if c.fail {
+			return n, ErrInjected
+		}
+		return n, io.EOF
+	}
 	return n, nil
 }
 
@@ -220,6 +228,7 @@ func drawHistory(r *eng.Run, cfg WCfg, maxOps int) []WOp {
 				left -= c
 			}
 			op.SrcErr = r.T.Chance(sim.LFault, 1, 6)
+			op.SrcEnd = r.T.Chance(sim.LFault, 1, 3)
 		}
 		ops = append(ops, op)
 	}
@@ -322,7 +331,7 @@ func ExecHistory(r *eng.Run, wr *WRun, seed uint32, check func(step int)) {
 			wr.Accepted = append(wr.Accepted, keep[:k]...)
 			wr.Offered += k
 		case WOpReadFrom, WOpCopy:
-			src := &chunkSrc{data: patBytes(seed, wr.Offered, op.N), chunks: op.Chunks, fail: op.SrcErr}
+			src := &chunkSrc{data: patBytes(seed, wr.Offered, op.N), chunks: op.Chunks, fail: op.SrcErr, withData: op.SrcEnd}
 			if op.Kind == WOpCopy {
 				ob.N, ob.Err = io.Copy(w, struct{ io.Reader }{src})
 			} else {
